@@ -220,7 +220,7 @@ impl<'dbg> DqeExecutor<'dbg> {
                 local_only: local,
             } => {
                 let local_variants = current_func
-                    .local_variable(ecx.location().global_pc, var_name)
+                    .local_variable(ecx.lookup_pc(), var_name)
                     .map(|v| vec![v])
                     .unwrap_or_default();
 
@@ -236,7 +236,7 @@ impl<'dbg> DqeExecutor<'dbg> {
                     local_variants
                 }
             }
-            Selector::Any => current_func.local_variables(ecx.location().global_pc),
+            Selector::Any => current_func.local_variables(ecx.lookup_pc()),
         };
 
         Ok(vars)
